@@ -5,8 +5,10 @@ package main
 import (
 	"context"
 	"encoding/json"
+
 	"errors"
 	"fmt"
+	"github.com/notaryproject/notation-core-go/signature"
 	"strings"
 	"sync"
 
@@ -160,6 +162,13 @@ func (v *loopVerifier) Verify(ctx context.Context, desc ocispec.Descriptor, sig 
 	}
 	v.mu.Unlock()
 	out := &notation.VerificationOutcome{RawSignature: sig, VerificationLevel: trustpolicy.LevelStrict}
+	if v.salt%2 == 0 {
+		// like the library's own verifier, this one reports what the envelope says: a payload whose descriptor of the artifact carries
+		// what was SIGNED (annotations of the signer's, no artifact type) - not necessarily field for field what the repository resolves
+		signed := ocispec.Descriptor{MediaType: desc.MediaType, Digest: desc.Digest, Size: desc.Size, Annotations: map[string]string{"signed.by/position": fmt.Sprint(k)}}
+		pl, _ := json.Marshal(map[string]interface{}{"targetArtifact": signed})
+		out.EnvelopeContent = &signature.EnvelopeContent{Payload: signature.Payload{ContentType: "application/vnd.cncf.notary.payload.v1+json", Content: pl}}
+	}
 	if opts.SignatureMediaType != loopSigMediaType(k) {
 		// a real verifier cannot even parse an envelope announced with another format's media type
 		out.Error = fmt.Errorf("mock: signature %d announced as %q", k, opts.SignatureMediaType)
@@ -209,7 +218,8 @@ func runNotationVerify() int {
 	fn := func(c rawCase) []traceLine {
 		var in VLoopIn
 		must(json.Unmarshal(c.In, &in))
-		resolved := ocispec.Descriptor{MediaType: mtA, Digest: digestOf(digest.SHA256, []byte("the artifact")), Size: 4242}
+		resolved := ocispec.Descriptor{MediaType: mtA, Digest: digestOf(digest.SHA256, []byte("the artifact")), Size: 4242, ArtifactType: "application/vnd.verif.artifact",
+			Annotations: map[string]string{"org.opencontainers.image.ref.name": "v1"}}
 		repo := &loopRepo{in: in, resolved: resolved}
 		ver := &loopVerifier{in: in, want: resolved, salt: mix(*flagSeed, c.ID, "lvl")}
 		ref := "registry.verif.example/app/web"
@@ -273,7 +283,7 @@ func runNotationVerify() int {
 				obs.Err = err.Error()
 			}
 			switch {
-			case desc.Digest == resolved.Digest && desc.Size == resolved.Size && desc.MediaType == resolved.MediaType:
+			case descEqualFull(desc, resolved):
 				obs.RetDesc = "resolved"
 			case desc.Digest == "" && desc.Size == 0:
 				obs.RetDesc = "none"
